@@ -470,11 +470,14 @@ class Timeout(Exception):
     pass
 
 
+WATCHDOG_SCALE = 10.0     # nominal budgets below are multiplied: a loaded machine must never look like a hang
+
+
 def with_alarm(seconds, fn, *a, **kw):
     def h(signum, frame):
         raise Timeout()
     old = signal.signal(signal.SIGALRM, h)
-    signal.setitimer(signal.ITIMER_REAL, seconds)
+    signal.setitimer(signal.ITIMER_REAL, seconds * WATCHDOG_SCALE)
     try:
         return fn(*a, **kw)
     finally:
